@@ -103,6 +103,17 @@ def index_nd(ctx, shape, lkinds, kinds, via='getitem', trim=False, qkind=None, d
     elif via == 'takeaxispos':
         assert len(nonfull) == 1
         f = lambda: a.take(nonfull[0][1], axis=dims.index(nonfull[0][0]), keepdims=keepdims)
+    elif via == 'takeaxisneg':
+        assert len(nonfull) == 1
+        f = lambda: a.take(nonfull[0][1], axis=dims.index(nonfull[0][0]) - len(dims), keepdims=keepdims)
+    elif via == 'take-label-explicit':
+        f = lambda: a.take(tup, indexing='label')
+    elif via == 'getitem-axes':
+        # an Axes object as index: every dimension looked up by the labels of the given axes
+        if any(k not in ('list2', 'list1', 'array2', 'full') for k in kinds):
+            raise ValueError('getitem-axes needs list kinds')
+        ax = ctx.da.Axes([ctx.da.Axis(ctx.nparray(i if not isinstance(i, slice) else l, kind=lk), d) for d, i, l, lk in zip(dims, idx, labels, lkinds)])
+        f = lambda: a[ax]
     elif via == 'ix-under-position':
         # with indexing.by = 'position' .ix toggles to labels and .loc keeps meaning labels
         ctx.da.set_option('indexing.by', 'position')
@@ -291,6 +302,13 @@ def templates():
                 if via == 'sel' and kind == 'mask':
                     pass
                 add('2d-%s-dim%d-%s' % (via, dim, kind), 'index_nd', cost=1.5, shape=[3, 2] if dim == 0 else [2, 3], lkinds=lks, kinds=kinds, via=via)
+    for dim in (0, 1):
+        for kind in ('scalar', 'list2'):
+            kinds = ['full', 'full']
+            kinds[dim] = kind
+            add('2d-takeaxisneg-dim%d-%s' % (dim, kind), 'index_nd', cost=1.5, shape=[3, 2] if dim == 0 else [2, 3], lkinds=['i', 'U'] if dim == 0 else ['U', 'f'], kinds=kinds, via='takeaxisneg')
+    add('2d-take-label-explicit', 'index_nd', cost=1.5, shape=[2, 3], lkinds=['U', 'i'], kinds=['scalar', 'list2'], via='take-label-explicit')
+    add('2d-getitem-axes', 'index_nd', cost=3, shape=[2, 2], lkinds=['i', 'U'], kinds=['list1', 'list2'], via='getitem-axes')
     for via in ('take', 'takeaxisname', 'takeaxispos', 'takedict'):
         add('2d-keepdims-%s' % via, 'index_nd', cost=1, shape=[2, 3], lkinds=['i', 'f'], kinds=['full', 'scalar'], via=via, keepdims=True)
     # N-d orthogonal combinations: one rich dimension (list / array), the others plain
